@@ -2,6 +2,7 @@ package e4
 
 import (
 	"bytes"
+	"errors"
 	"fmt"
 	"github.com/prometheus/common/model"
 	"os"
@@ -103,7 +104,13 @@ func runC11(w *core.WorkerCtx, idx int) *core.CaseResult {
 	proxyURL := "http://127.0.0.1:8008"
 	dir := filepath.Join(w.Scratch, fmt.Sprintf("c11-%d", idx))
 	defer os.RemoveAll(dir)
-	in, err := sc.New(sc.Options{StoreDir: dir, ProxyURL: proxyURL, PromURL: "http://127.0.0.1:9090", SelfMonitor: selfMon})
+	reloadFails := false
+	in, err := sc.New(sc.Options{StoreDir: dir, ProxyURL: proxyURL, PromURL: "http://127.0.0.1:9090", SelfMonitor: selfMon, OnPromReload: func() error {
+		if reloadFails {
+			return errors.New("prometheus answered 500 to POST /-/reload")
+		}
+		return nil
+	}})
 	if err != nil {
 		res.Inconcl = "sidecar: " + err.Error()
 		return res
@@ -367,6 +374,43 @@ func runC11(w *core.WorkerCtx, idx int) *core.CaseResult {
 		}
 	}
 
+	// phase 1d: another version (one more job) is pushed while Prometheus refuses the reload - the push fails - and
+	// the operator reverts the coordinator to the current version before it ever succeeded. The coordinator pushes its
+	// configuration if the shard reports another hash, and posts targets. A shard that then reports the
+	// coordinator's hash must have the file of the coordinator's configuration.
+	if len(res.Viol) == 0 && idx%2 == 1 {
+		specR := clone(spec)
+		if curText != text {
+			specR.ExternalLabels = map[string]string{"cluster": "relabelled-" + fmt.Sprint(idx%7), "region": "eu", "replica": "z"}
+		}
+		specR.Jobs = append(specR.Jobs, cfggen.GenJob(r, "refused_job", false))
+		textR := cfggen.Render(specR, cfggen.Style{Indent: 2})
+		if _, err := config.Load(textR, false, log.NewNopLogger()); err == nil {
+			reloadFails = true
+			perr := in.PushConfig(textR)
+			reloadFails = false
+			hCur, herr := hashOf(curText)
+			if perr != nil && herr == nil {
+				res.AddStat("pushes_refused_by_prometheus_then_reverted", 1)
+				if rt, err := in.Runtime(); err == nil && rt.ConfigHash != hCur {
+					if err := in.PushConfig(curText); err != nil {
+						res.Inconcl = "sidecar rejected the reverted configuration: " + err.Error()
+						return res
+					}
+				}
+				if err := in.UpdateTargets(assign); err != nil {
+					res.Inconcl = "targets update after the refused push: " + err.Error()
+					return res
+				}
+				if rt, err := in.Runtime(); err == nil && rt.ConfigHash == hCur {
+					if gb, err := in.GeneratedConfig(); err == nil {
+						compare("after a push that Prometheus refused, a revert and an ordinary targets update (the shard reports the coordinator's hash)", curText, curOrig, gb, want)
+					}
+				}
+			}
+		}
+	}
+
 	// phase 2: a new configuration arrives while targets are assigned (a job added, the last job removed when
 	// there are several, a setting changed): the assignment of surviving jobs must still be in the file
 	if len(res.Viol) == 0 {
@@ -480,6 +524,7 @@ func init() {
 		Level: "exploration",
 		Rule: "differential against the vendored Prometheus loader: case = generated configuration (1-4 jobs, every auth kind: basic, bearer_token, authorization, tls (files or inline), oauth2; SD kinds static/file/kubernetes/dns/http; global, rule files, alerting with and without credentials, 0-2 remote_write and remote_read entries with bearer tokens / passwords / authorization, all secrets unique recognisable strings) + an assignment (jobs with 0/1/2/5 targets, optionally targets of a job that does not exist) + self-monitoring on/off, pushed through a real sidecar's API; then a configuration differing only in external labels, then a second configuration (a job added, the last job removed, a setting changed) while targets are assigned, then a changed assignment under it - the file is re-checked after each phase; in a third of the cases the write of the generated file fails once while the second configuration is applied, after which the coordinator's usual actions must bring the file to that configuration; plus 4/24 cases on the REAL `kvass sidecar` process restarted twice on its volume (the file must list the resumed assignment); plus overlap cases: a slow call (40-job configuration / 2400-target assignment) and a fast call of the other kind reach one sidecar 0-15 ms apart in 8 rounds, after both returned the file must show the pushed configuration and the posted assignment; " +
 			"the generated file is loaded with config.Load and compared field-wise with the loaded original (jobs and order, static entries <-> assigned hashes, scheme/proxy/auth removal, kept settings, byte scan for job secrets, global/rules/alerting/remote sections via YAML rendering plus a reflective walk over every Secret value); " +
+			"every other case pushes a version with one more job while Prometheus refuses the reload, reverts, lets the coordinator push if the hash differs, and - if the shard then reports the coordinator's hash - compares the file with the coordinator's version; " +
 			"every second case sets and clears the stop-scrape reason through /api/v1/status/extra_config/ and re-checks the file after each change and after the next targets update; " +
 			"non-trivial = every case the sidecar accepts; distinct = hash of the text, self-monitor flag and assignment size",
 		Assumptions: []string{"secrets use a YAML-plain alphabet (no quoting needed)", "sections are compared through yaml.Marshal of the loaded structs plus the reflective secret walk"},
